@@ -221,4 +221,58 @@ theorem C08_handler_tool_args (kw c : Conf) (t a : Name) (ht : '.' ∉ t) :
       tool_setting c t a ht]
     cases cget c (toolKey t a) <;> rfl
 
+/-! ### custom toolboxes -/
+
+/-- `<ns>.<t>.<a>` -/
+def boxKey (ns t a : Name) : Name := ns ++ '.' :: (t ++ '.' :: a)
+
+theorem box_setting (c : Conf) (ns t a : Name) (hns : '.' ∉ ns) (ht : '.' ∉ t) :
+    cget (settingsOf (bucket c ns) t) a = cget c (boxKey ns t a) := by
+  rw [settingsOf_eq, cget_nsFilter t ht, bucket_eq, cget_nsFilter ns hns, cget_toDict]
+  rfl
+
+/-- **Custom toolboxes.**  A tool reachable as `<ns>.<name>` is set up exactly when the effective
+    `<ns>.<name>.on` is truthy, and then with exactly the effective `<home>.<name>.*` entries (`on` and
+    `priority` removed), `home` being the toolbox the tool object belongs to — never with the entries of a
+    like-named tool of another toolbox (`tools.<name>.*` of a built-in one, say). -/
+theorem C08_custom_toolbox (c : Conf) (t : BoxTool) (hns : '.' ∉ t.ns) (hh : '.' ∉ t.home) (hn : '.' ∉ t.name) :
+    (boxToolSetup c t).isSome = ((cget c (boxKey t.ns t.name onName)).map truthy).getD false ∧
+    ∀ kw, boxToolSetup c t = some kw → ∀ a,
+      cget kw a = if a = onName ∨ a = priorityName then none else cget c (boxKey t.home t.name a) := by
+  unfold boxToolSetup
+  rw [box_setting c t.ns t.name onName hns hn]
+  constructor
+  · split <;> simp_all
+  · intro kw h a
+    split at h
+    · injection h with h
+      subst h
+      by_cases hex : a = onName ∨ a = priorityName
+      · simp only [hex, if_true]
+        apply cget_none_of_not_mem
+        intro hm
+        rw [List.mem_map] at hm
+        obtain ⟨⟨a', v⟩, hmem, ha'⟩ := hm
+        rw [List.mem_filter] at hmem
+        dsimp only at ha'
+        subst ha'
+        have := hmem.2
+        simp at this
+        rcases hex with e | e
+        · exact this.1 e
+        · exact this.2 e
+      · simp only [hex, if_false]
+        rw [← box_setting c t.home t.name a hh hn]
+        have hp : (fun (x : Name) => decide (x ≠ onName ∧ x ≠ priorityName)) a = true := by
+          simp only [not_or] at hex
+          simp [hex.1, hex.2]
+        exact cget_filter_key (fun x => decide (x ≠ onName ∧ x ≠ priorityName)) a hp _
+    · cases h
+
+/-- the default toolbox is the instance `ns = home = tools` -/
+example (c : Conf) (t : Name) :
+    boxToolSetup c ⟨toolsNs, t, toolsNs⟩ =
+      (if ((cget (settingsOf (bucket c toolsNs) t) onName).map truthy).getD false then
+        some ((settingsOf (bucket c toolsNs) t).filter fun (a, _) => a ≠ onName ∧ a ≠ priorityName) else none) := rfl
+
 end CpProofs.C08
